@@ -67,6 +67,9 @@ def build_class(spec, name=None):
         if p.get('read'):
             def rfunc(self, pname=pname):
                 rec['calls'].append(('read', pname, None))
+                if pname in rec.get('readfail', ()):
+                    from frappy.errors import HardwareError
+                    raise HardwareError(f'{pname} can not be read')      # puts the parameter into an error state
                 return getattr(self, pname)
             rfunc.__name__ = 'read_' + pname
             attrs['read_' + pname] = rfunc
